@@ -26,7 +26,8 @@ RULE = (
     "size: layouts none / TSL (rank 1-2, depth <= 2, bounds {1,2,3}, steps {1,2,4,6,12}, offsets {0,3}, dynamic outermost tile) x element widths {1,2,4,8} x run-time "
     "shapes; static: all sequences of <= 4 allocations over sizes {1,7,64,100} x alignments {1,2,64,256} x memories {L1, Test(capacity 100)}; mini: all histories "
     "of <= 5 use events over 2-3 buffers (kinds: direct, through a subview, inside a loop), second/third buffer allocated up front or just before its first use, "
-    "x ALL solver answers on a grid of 4 offsets. distinct = distinct (case, observation); non-trivial = a buffer is used through a view / address reuse is possible"
+    "x ALL solver answers on a grid of 4 offsets; the histories of <= 3 events again with the buffers spread over two memory spaces (L1 / L3: one solver problem per "
+    "space, every combination of answers, every buffer inside its own memory's address window). distinct = distinct (case, observation); non-trivial = a buffer is used through a view / address reuse is possible"
 )
 ASSUMPTIONS = [
     "minimalloc semantics: a buffer occupies [offset, offset+size) during the half-open lifetime [start_time, end_time) it is declared with; any non-conflicting, aligned placement inside the capacity is a legal answer",
@@ -102,6 +103,11 @@ def _mini_space(tier):
                         if mode == "auto" and (late or n > 3):
                             continue
                         cases.append((nb, seq, late, mode))
+                        # the same history with buffer 1 (and, in thorough, buffer 2 instead) in main memory: one solver problem per memory space
+                        if tier == "thorough" or (n <= 3 and not any(e[1] == "ll" for e in seq)):
+                            cases.append((nb, seq, late, mode, ("L1", "L3", "L1")[:nb]))
+                            if nb == 3 and tier == "thorough":
+                                cases.append((nb, seq, late, mode, ("L3", "L1", "L3")))
     return cases
 
 
@@ -387,6 +393,9 @@ def mini_text(nb, seq, late):
     return "builtin.module {\nfunc.func @f() {\n" + "\n".join(lines) + "\n  func.return\n}\n}\n"
 
 
+MEM_WINDOWS = {"L1": (0x10000000, 65536), "L3": (0x80000000, int(1e9)), "Test": (0, 100)}
+
+
 def run_output(mod):
     """execute the allocated program: returns list of events ('use', tag, base_address) / ('dealloc', base_address)"""
     ev = []
@@ -454,10 +463,12 @@ def valid_placements(buffers, capacity, grid):
             yield pl
 
 
-def eval_mini(r, nb, seq, late, mode, only_placement=None, tier=None):
+def eval_mini(r, nb, seq, late, mode, mems=None, only_placement=None, tier=None):
     tier = tier or _TIER[0]
     import minimalloc
 
+    if mems is not None:
+        return eval_mini_mems(r, nb, seq, late, mode, mems, only_placement, tier)
     text = mini_text(nb, seq, late)
     key = f"mini|{nb}|{seq}|{late}|{mode}"
     case = dict(kind="mini", nb=nb, seq=seq, late=late, mode=mode, program=text)
@@ -517,6 +528,98 @@ def eval_mini(r, nb, seq, late, mode, only_placement=None, tier=None):
     r.sample = dict(kind="mini", program=text, declared_lifetimes=declared, solver_answers=nplace)
 
 
+def eval_mini_mems(r, nb, seq, late, mode, mems, only_placement, tier):
+    """buffers in several memory spaces: one solver problem per space; every combination of valid answers; every buffer must land inside the
+    address window of its own memory space and live buffers must not overlap"""
+    import minimalloc
+
+    from xdsl.dialects.builtin import StringAttr
+
+    text = mini_text(nb, seq, late)
+    key = f"mini|{nb}|{seq}|{late}|{mode}|{mems}"
+    case = dict(kind="mini", nb=nb, seq=seq, late=late, mode=mode, mems=list(mems), program=text)
+
+    def compile_():
+        # memref-to-snax only turns L1 allocations into snax.alloc; the memory space of the k-th snax.alloc (= buffer k) is then set to mems[k],
+        # which is how a function with snax.alloc ops in several memory spaces reaches snax-allocate
+        mod = common.compile_text(text, "memref-to-snax,canonicalize")
+        allocs = [op for op in mod.walk() if op.name == "snax.alloc"]
+        assert len(allocs) == nb
+        for k, op in enumerate(allocs):
+            op.properties["memory_space"] = StringAttr(mems[k])
+        mod.verify()
+        common.run_pipeline(mod, f"snax-allocate{{mode={mode}}}")
+        return mod
+
+    minimalloc.PROBLEMS.clear()
+    minimalloc.ORACLE[0] = minimalloc.first_fit
+    try:
+        compile_()
+    except common.Rejected as e:
+        r.rejected = e.kind
+        r.count("mini_rejected:" + e.kind + str(e)[:60])
+        return
+    probs = list(minimalloc.PROBLEMS)
+    if not probs:
+        r.rejected = "solver-not-called"
+        return
+    declared = [[(b.start_time, b.end_time, b.size, b.alignment) for b in p.buffers] for p in probs]
+    # buffer ids change from compilation to compilation: a problem is recognised by the capacity of its memory space
+    ids = [p.capacity for p in probs]
+    if len(set(ids)) != len(ids):
+        r.rejected = "ambiguous-problems"
+        return
+    grid = BOUNDS[tier]["grid"]
+    r.nontrivial = len(probs) > 1
+    r.count("solver_problems", len(probs))
+    nplace = 0
+    per_problem = [list(valid_placements(p.buffers, min(p.capacity, 8 * grid + SIZE), grid)) for p in probs]
+    for combo in itertools.product(*per_problem):
+        flat = [list(x) for x in combo]
+        if only_placement is not None and flat != [list(x) for x in only_placement]:
+            continue
+        nplace += 1
+        table = {i: list(pl) for i, pl in zip(ids, combo)}
+        minimalloc.ORACLE[0] = lambda problem, table=table: table[problem.capacity]
+        mod = compile_()
+        ev, steps = run_output(mod)
+        r.transitions += steps
+        r.states += len(ev)
+        r.validated += 1
+        uses, base_of, mem_of = {}, {}, {}
+        for t, e in enumerate(ev):
+            if e[0] == "use":
+                uses.setdefault(e[3], []).append(t)
+                base_of[e[3]] = e[2] % (1 << 32)  # pointers are 32-bit values (an i32 constant above 2^31 prints as a negative number)
+                mem_of[e[3]] = mems[seq[e[1] - 1][0]]
+        bad = None
+        for x in sorted(uses):
+            lo, cap = MEM_WINDOWS[mem_of[x]]
+            if not (lo <= base_of[x] and base_of[x] + SIZE <= lo + cap):
+                bad = f"window: buffer #{x[1]} allocated in {mem_of[x]} is placed at {base_of[x]:#x}, outside that memory's address range [{lo:#x}, {lo + cap:#x})"
+                break
+        bufs = sorted(uses)
+        if bad is None:
+            for i, x in enumerate(bufs):
+                for y in bufs[i + 1 :]:
+                    a, b_ = base_of[x], base_of[y]
+                    if a < b_ + SIZE and b_ < a + SIZE:
+                        ia, ib = uses[x], uses[y]
+                        if not (max(ia) < min(ib) or max(ib) < min(ia)):
+                            bad = f"interleaved: buffers #{x[1]} at {a:#x} and #{y[1]} at {b_:#x} overlap in memory but their uses interleave (events {ia} vs {ib})"
+        if bad is None:
+            for t, e in enumerate(ev):
+                if e[0] == "dealloc" and any(t2 > t for t2 in uses.get(e[2], [])):
+                    bad = f"early-dealloc: dealloc of buffer #{e[2][1]} at {e[1]:#x} (event {t}) precedes a later use of it"
+                    break
+        if bad:
+            r.violate(key + "|" + bad.split(" ")[0], dict(case, placement=flat, declared=declared), f"{bad}; solver answers {flat} are valid for the declared problems {declared}; history {seq} (late={late}, mode={mode}, memories {mems})")
+            break
+    r.count("solver_answers", nplace)
+    r.obs = ("mini", nb, seq, late, mode, mems, repr(declared))
+    r.sample = dict(kind="mini", program=text, declared_lifetimes=declared, solver_answers=nplace)
+
+
 def evaluate(case) -> CaseResult:
     kind, p = case
     r = CaseResult()
@@ -541,5 +644,5 @@ def replay(case):
     elif case["kind"] == "static":
         eval_static(r, case["mem"], _t(case["seq"]))
     else:
-        eval_mini(r, case["nb"], _t(case["seq"]), case["late"], case["mode"], only_placement=case.get("placement"))
+        eval_mini(r, case["nb"], _t(case["seq"]), case["late"], case["mode"], mems=_t(case["mems"]) if case.get("mems") else None, only_placement=case.get("placement"))
     return r.violations
